@@ -165,6 +165,26 @@ theorem aggregate_runs_all_reports_each_once (v : Cond → Bool) (ms : List Mod)
   rw [fifoLoop_true, allErrors_eq]
   simp [List.flatMap_map, flatO]
 
+/-- "every error is reported once" is once EACH: errors are VALUES (the model identifies one by the leaf
+that returned it; it has no message texts, so nothing can depend on them), and the reported list keeps
+multiplicities — an error value that occurs several times below an aggregating group (leaves with
+equal labels, the same leaf listed twice, at any depth of nested aggregation) is reported exactly as
+many times as it occurred. No merging, no de-duplication. -/
+theorem aggregate_reports_with_multiplicity (v : Cond → Bool) (ms : List Mod) (l : Nat) :
+    (flatO (eval v (.fifo true ms))).2.count l = (ms.map fun x => (eval v x).2.flat.count l).sum := by
+  rw [aggregate_runs_all_reports_each_once]
+  simp [List.count_flatMap, Function.comp_def]
+
+/-- … in particular through a nested aggregating group: what the inner group collected is appended
+whole to what the outer one has, also when the outer one already holds equal errors. -/
+theorem nested_aggregate_keeps_equal_errors (v : Cond → Bool) (pre inner post : List Mod) :
+    (flatO (eval v (.fifo true (pre ++ .fifo true inner :: post)))).2 =
+      pre.flatMap (fun x => (eval v x).2.flat) ++ inner.flatMap (fun x => (eval v x).2.flat) ++ post.flatMap (fun x => (eval v x).2.flat) := by
+  rw [aggregate_runs_all_reports_each_once]
+  have hin := aggregate_runs_all_reports_each_once v inner
+  simp only [flatO, Prod.mk.injEq] at hin
+  simp [List.flatMap_append, hin.2]
+
 /-! ## 5. Rejection as a whole -/
 
 /-- A body is accepted iff every node of it names a registered modifier, has the right JSON shape
@@ -320,6 +340,10 @@ example : runTree exTree .res atom7 = some ([1, 5, 7], [1, 5]) := by decide
 example : specEval .req (atom7 .req) exTree = ([1, 3, 4, 2, 5], [1, 5]) := by decide
 /-- without aggregation the first failing leaf stops everything -/
 example : runTree (.fifo none false [leafOK 0, leafFail 1, leafOK 2]) .req noAtom = some ([0, 1], [1]) := by decide
+/-- two failing leaves with the SAME label (equal error values), the later one inside a nested aggregating
+group, also through a filter: each is reported, `[7, 7, 7]` -/
+example : runTree (.fifo none true [leafFail 7, .fifo none true [leafFail 7, leafOK 8, .filter c7 none (.fifo none true [leafFail 7]) none]]) .req atom7
+    = some ([7, 7, 8, 7], [7, 7, 7]) := by decide
 /-- hypotheses of `reject_whole` are satisfiable: an unknown name four levels down, under a `[]` scope -/
 example : valid (.fifo none false [.filter c7 (some []) (leafOK 1) (some (.prio none [(1, .fifo none true [.unknown])]))]) = false := by decide
 /-- unsupported scope: a response scope on a request-only leaf -/
